@@ -233,11 +233,11 @@ CLAIMED = {
              "feature configuration, where replay/parallel_segments sidecars are findings.",
         design_ref="DESIGN.md §4 C19"),
     "C23": dict(
-        technique="taint analysis on type-checked MIR: nondeterminism sources (clock, RNG, UUID, Tantivy segment snapshot) to persisted aggregates and file writes, with the explicit-input override idiom as the only sanitizer; type scan of persisted ADTs for RandomState collections (candidates)",
+        technique="taint analysis on type-checked MIR: nondeterminism sources (clock, RNG, UUID, Tantivy segment snapshot) to persisted aggregates and file writes, with the explicit-input override idiom as the only sanitizer; type-graph scan of the persisted roots for serde-serialised RandomState collections (derive list / serde(skip) read from the struct source, since macro expansion removes helper attributes from the HIR)",
         text="Partial: with an explicit timestamp, no clock/RNG/UUID value reaches WalEntryData/Frame fields or bytes written to the memory file on the put path; the clock feeds the "
-             "timestamp only as the default of options.timestamp.",
+             "timestamp only as the default of options.timestamp; no serde-serialised type reachable from the persisted roots holds a HashMap/HashSet field that is not skipped.",
         note="Not decided: byte identity (runtime). Known finding (open): Tantivy segment names (random UUIDs) and snapshot bytes are embedded in the file, so two identical histories differ "
-             "in bytes. HashMap-typed persisted fields are listed as untriaged candidates.",
+             "in bytes. The type rule found a genuine defect (memories-track maps serialised in HashMap order), repaired by fix commit 00289e5.",
         design_ref="DESIGN.md §4 C23"),
     "C28": dict(
         technique="edge-cut reachability on the tantivy_dirty test in rebuild_indexes, data-dependence agreement between the bytes persisted and the bytes decoded into the installed in-memory index, sibling agreement of commit-side and reopen-side decoders",
